@@ -506,7 +506,7 @@ pub fn run(ctx: &Ctx) {
     ctx.assume("the specification is silent about empty-string names; the generators do not produce them");
     *ctx.exhaustive.lock().unwrap() = Some(true);
     ctx.run_cases("exhaustive", 6 * 26, t.pick(120.0, 1200.0), |_r, c, o| exhaustive_case(c, o, maxlen));
-    ctx.run_cases("guided", t.pick(150000, 1000000), t.pick(20.0, 200.0), guided_case);
-    ctx.run_cases("random", t.pick(60000, 500000), t.pick(10.0, 100.0), random_case);
+    ctx.run_cases("guided", t.pick(150000, 5000000), t.pick(20.0, 200.0), guided_case);
+    ctx.run_cases("random", t.pick(60000, 2000000), t.pick(10.0, 100.0), random_case);
     ctx.extra("exhaustive_bound", json!({"max_calls": maxlen, "name_lists": 6, "tokens": 25}));
 }
